@@ -32,7 +32,9 @@ open GunYu GunYu.Checkpoint GunYu.Migrate
     new one is neither empty nor "?"; the hash resolves them to key `n`; under `n`
     database `d` reads offset `X ≥ 0` with a run id and every `_offset` field of
     the ids in any other database is smaller (`Holds`); `_runid` fields store
-    their own id; a new key name holds no field of the ids yet; if the key stays
+    their own id; a new key name holds no field of the ids yet OR what a rename cut after its
+    first HSET left (`LocOk`: its fields of the ids read `X` in `d` and are smaller elsewhere,
+    so the re-run after such a cut is covered as well); if the key stays
     and `d` already holds fields of the new id that the hash does not map (an
     interrupted earlier re-key), the old id's fields in `d` alone read `X` too.
     `o1`,`o2` = database orders of the operation's two loops, `oS` = of the next
@@ -106,6 +108,43 @@ theorem gc_spares_newest_of_live_id (t : Target) (name rid : Bytes) (before : In
   have := (List.mem_filter.mp hp).2
   simp only [decide_eq_true_eq] at this
   intro h; exact this (Or.inl ⟨h, trivial⟩)
+
+/-- "Garbage collection never removes the newest checkpoint of a replication id that a source
+    still reports": for ANY id `rid` of the live set (not only the two of the next start) whose
+    largest offset `X ≥ 0` under key `name` is read in database `d` (smaller in every other
+    database), whole-pass statement — NO request of `gcStaleCp`, whichever pair of the
+    checkpoint hash it stems from (same key other id, other key, `rid` itself), for every
+    threshold and every database order, deletes a field of `rid` in `d` or its hash entry.
+    (`hown`: `_runid` fields store their own id, in every key the pass looks at.) -/
+theorem gc_spares_live_id (t₀ : Target) (live : List Bytes) (before : Int) (orders : List (List Nat))
+    (rid name : Bytes) (d : Nat) (X : Int) (hl : rid ∈ live) (hq : rid ≠ qmark)
+    (hsolo : Solo rid t₀ name d X) (hown : ∀ n, RunidOwn t₀ n) :
+    ∀ q ∈ gcReqs t₀ live before orders,
+      q ≠ Req.hdelHash rid ∧ ∀ ks, q = Req.hdelCp d name ks → ∀ k ∈ ks, k.1 ≠ rid := by
+  intro q hq'
+  have hs := gcLoop_gsafe hq live hl before t₀.hash orders t₀ ⟨hsolo, hown⟩ q hq'
+  constructor
+  · intro h; rw [h] at hs; exact hs rfl
+  · intro ks h k hk
+    rw [h] at hs
+    obtain ⟨ρ, hkeys, hsafe⟩ := hs
+    rcases hsafe rfl with h1 | h1
+    · rw [hkeys k hk]; exact h1
+    · exact absurd rfl h1
+
+/-- NOT PROVED (listed under `partial`; the harness monitors it on every crash point:
+    `restart-after-update-loses-position`): what the next start really does after a cut —
+    `UpdateCheckpoint` runs again to completion on the crash state, then the position is read under
+    the LOCAL key. `update_prefix_safe` covers the read through the checkpoint hash at every prefix
+    and (through `LocOk`) accepts the crash states of a rename as initial states; that the crash
+    states re-establish ALL of `UpdPre` (`own`, `orphan`) is not shown. -/
+def update_rerun_reads_local_stmt : Prop :=
+  ∀ (ver id1 id2 loc : Bytes) (t₀ : Target) (n r : Bytes) (d : Nat) (X now now' : Int)
+    (_ : UpdPre id1 id2 loc t₀ n r d X now) (o1 o2 o1' o2' oS : List Nat)
+    (_ : d ∈ o1) (_ : d ∈ o1') (_ : d ∈ oS) (_ : -(2^63 : Int) ≤ now' ∧ now' < 2^63) (k : Nat),
+    let t₁ := applyAll t₀ ((updateReqs ver t₀ loc [id1, id2] o1 o2 now).take k)
+    let t₂ := applyAll t₁ (updateReqs ver t₁ loc [id1, id2] o1' o2' now')
+    ∃ c, getCheckpoint ver t₂ loc [id1, id2] oS = some (c, (d : Int)) ∧ c.offset = X
 
 /-- gc asks for `exceptNewest` exactly for the ids that are live -/
 theorem gc_passes_exceptNewest (live : List Bytes) (before : Int) (t : Target) (rid cpn : Bytes)
